@@ -3,6 +3,7 @@ import Spec.C01
 import Proofs.IntLaw
 import Proofs.LitLaw
 import Proofs.Layout
+import Proofs.SplitJoin
 import Proofs.LineShape
 import Proofs.Renders
 /-!
@@ -17,6 +18,14 @@ fields, any order, any gaps.
 -/
 namespace Props.C01
 open Cfi Cfi.Text Spec.C01
+
+/-- the decidable disjointness of the specifications is the one the layout theorems use -/
+theorem Disjoint_of_bool' (fs : List Field) (h : Spec.C02.disjoint fs = true) : Cfi.Disjoint fs := by
+  induction fs with
+  | nil => trivial
+  | cons f fs ih =>
+    simp only [Spec.C02.disjoint, Bool.and_eq_true, List.all_eq_true, Bool.or_eq_true, decide_eq_true_eq] at h
+    exact ⟨fun g hg => h.1 g hg, ih h.2⟩
 
 /-- the per-kind law: the rendering is exactly `size` wide and parses back to
 the canonical form of the value -/
@@ -111,6 +120,32 @@ theorem readText_null (f : Field) (v : Val) (hn : v.isNull = true) (hgeo : f.sto
     unfold BlankLaw at hb
     rw [hb]
     cases f.kind <;> rfl
+
+theorem replaceNE_absent (old new : List Char) (hold : old ≠ []) (s : List Char)
+    (h : ∀ c ∈ s, ¬ c ∈ old) (fuel : Nat) : replaceNE old new fuel s = s := by
+  induction s generalizing fuel with
+  | nil => cases fuel <;> rfl
+  | cons c cs ih =>
+    cases fuel with
+    | zero => rfl
+    | succ fuel =>
+      have hp : isPrefix old (c :: cs) = false := isPrefix_false_of_head old c cs hold (h c (by simp))
+      simp only [replaceNE, hp, Bool.false_eq_true, if_false, ih (fun x hx => h x (by simp [hx]))]
+
+/-- blanks are not a float either, whatever the (non-blank, one-character) decimal separator -/
+theorem blankLaw_flt (dec : Nat) (fmt c : Char) (hc : c ≠ ' ') (n : Nat) : BlankLaw (.flt dec fmt [c]) n := by
+  have hrep : replace (List.replicate n ' ') [c] ['.'] = List.replicate n ' ' := by
+    simp only [replace, List.isEmpty_cons, Bool.false_eq_true, if_false]
+    apply replaceNE_absent _ _ (by simp)
+    intro x hx
+    simp only [List.mem_replicate] at hx
+    simp only [List.mem_singleton]
+    rw [hx.2]; exact fun e => hc e.symm
+  have hs : stripBy isNumWs (List.replicate n ' ') = [] := by
+    have := stripBy_append_replicate (p := isNumWs) [] n ' ' isNumWs_blank
+    simpa [stripBy] using this
+  simp only [BlankLaw, parseText, hrep, Dbl.pyFloat, hs, PyInt.sign, PyInt.digitsUS]
+  decide
 
 /-- **Missing values obey the law** in every field kind whose blank span does not
 parse (`BlankLaw`: proved for literals and integers) -/
@@ -340,6 +375,73 @@ theorem readLaw_flt (f : Field) (x : Dbl) (dec : Nat) (fmt : Char) (sep : List C
   simp only [canon, Val.isNull, hn, Bool.false_eq_true, if_false, hk, parseText]
   cases Dbl.pyFloat (replace r sep ['.']) <;> rfl
 
+/-- **The read half of the law from the decidable domain guard**, for every field
+kind except dates: whatever `Spec.C01.fieldInDomain` admits (fitting values of
+the right type, canonical literals, one-character non-blank separators) obeys it.
+(`hbig`: `str(int)` is only defined below 4300 digits.) -/
+theorem readLaw_of_domain (f : Field) (v : Val) (h : fieldInDomain f v = true)
+    (hk : ∀ fmts, f.kind ≠ .date fmts) (hbig : ∀ n, v = .int n → n.natAbs < 10 ^ 4300) : ReadLaw f v := by
+  simp only [fieldInDomain, Bool.and_eq_true, decide_eq_true_eq] at h
+  obtain ⟨⟨hfits, _⟩, hkind⟩ := h
+  have hfits' := hfits
+  simp only [Spec.C02.fits, Bool.and_eq_true, beq_iff_eq] at hfits'
+  obtain ⟨⟨hgeo, htype⟩, hfit⟩ := hfits'
+  by_cases hn : v.isNull = true
+  · -- missing value
+    apply readLaw_of_renderLaw
+    apply law_null f v hn hgeo
+    cases hkd : f.kind with
+    | lit => exact blankLaw_lit _
+    | int => exact blankLaw_int _
+    | date fmts => exact absurd hkd (hk fmts)
+    | flt dec fmt sep =>
+      simp only [hkd, Bool.and_eq_true] at hkind
+      have hsep := hkind.1
+      unfold sepOk at hsep
+      split at hsep
+      · rename_i c
+        apply blankLaw_flt
+        intro e; subst e
+        exact absurd hsep (by decide)
+      · exact absurd hsep (by simp)
+  · have hn' : v.isNull = false := by simpa using hn
+    cases hkd : f.kind with
+    | date fmts => exact absurd hkd (hk fmts)
+    | lit =>
+      cases v with
+      | str s =>
+        simp only [hkd, Bool.and_eq_true, beq_iff_eq] at hkind
+        apply readLaw_of_renderLaw
+        apply law_lit f s hkd hgeo
+        · simpa [renderFull, hkd, Val.isNull] using hfit
+        · exact ⟨_, hkind.2⟩
+      | none => simp [Val.isNull] at hn'
+      | nat => simp [Val.isNull] at hn'
+      | int n => simp [hkd, Spec.C02.typeOk] at htype
+      | dbl x => cases x <;> simp_all [Spec.C02.typeOk, Val.isNull, Dbl.isNaN]
+      | date t => simp [hkd, Spec.C02.typeOk] at htype
+    | int =>
+      cases v with
+      | int n =>
+        apply readLaw_of_renderLaw
+        apply law_int f n hkd hgeo _ (hbig n rfl)
+        simpa [renderFull, hkd, Val.isNull] using hfit
+      | none => simp [Val.isNull] at hn'
+      | nat => simp [Val.isNull] at hn'
+      | str s => simp [hkd, Spec.C02.typeOk] at htype
+      | dbl x => cases x <;> simp_all [Spec.C02.typeOk, Val.isNull, Dbl.isNaN]
+      | date t => simp [hkd, Spec.C02.typeOk] at htype
+    | flt dec fmt sep =>
+      cases v with
+      | dbl x =>
+        apply readLaw_flt f x dec fmt sep hkd hfits
+        simpa [Val.isNull] using hn'
+      | none => simp [Val.isNull] at hn'
+      | nat => simp [Val.isNull] at hn'
+      | str s => simp [hkd, Spec.C02.typeOk] at htype
+      | int n => simp [hkd, Spec.C02.typeOk] at htype
+      | date t => simp [hkd, Spec.C02.typeOk] at htype
+
 /-- **Read-back clause of C01** (`Spec.C01.holds`, second conjunct): for every
 positional layout of pairwise disjoint fields and values obeying the read half
 of the law, what is read from the written line is, field by field, the canonical
@@ -423,6 +525,32 @@ theorem readBack_canon (fs : List Field) (vs : List Val) (w : List Char)
             simp only [List.map_cons, List.zip_cons_cons, List.cons.injEq]
             refine ⟨?_, ih vs (by simpa using hlen) _ hrest hrest2 hrest3⟩
             rw [hb, ha.2, hc]
+
+/-- **C01 read-back, from the decidable domain**: for every layout and value list
+admitted by `Spec.C01.inDomain` that has no date field, the write succeeds and
+what is read back is, field by field, the canonical form (`Spec.C01.holds`,
+second conjunct) — integers, literals, floats and missing values. -/
+theorem readBack_of_inDomain (fs : List Field) (vs : List Val) (h : inDomain fs vs = true)
+    (hnodate : ∀ f ∈ fs, ∀ fmts, f.kind ≠ .date fmts)
+    (hbig : ∀ v ∈ vs, ∀ n, v = .int n → n.natAbs < 10 ^ 4300) :
+    ∃ w, writePos fs vs = .ok w ∧
+      readPos fs w = (fs.zip vs).map (fun fv => canon fv.1 fv.2 (slice w fv.1.start fv.1.stop)) := by
+  simp only [inDomain, Bool.and_eq_true, beq_iff_eq, List.all_eq_true] at h
+  obtain ⟨⟨hlen, hdis⟩, hdom⟩ := h
+  have hlaw : ∀ fv ∈ fs.zip vs, ReadLaw fv.1 fv.2 := by
+    intro fv hfv
+    have hm := List.of_mem_zip hfv
+    exact readLaw_of_domain fv.1 fv.2 (hdom fv hfv) (hnodate fv.1 hm.1) (hbig fv.2 hm.2)
+  have hD := Disjoint_of_bool' fs hdis
+  have hfits : ∀ fv ∈ fs.zip vs, Spec.C02.fits fv.1 fv.2 = true := by
+    intro fv hfv
+    have := hdom fv hfv
+    simp only [fieldInDomain, Bool.and_eq_true] at this
+    exact this.1.1
+  obtain ⟨rs, hr⟩ := all2_rendersTo_of_fits fs vs hlen hfits
+  obtain ⟨out, hout⟩ := writeFields_ok fs vs rs hr hlen []
+  have hw : writePos fs vs = .ok (out ++ ['\n']) := by simp [writePos, hout, Except.map]
+  exact ⟨_, hw, readBack_canon fs vs _ hlen hD hlaw hw⟩
 
 /-- non-vacuity of the laws: a concrete layout with gaps, in reversed order -/
 example :
